@@ -99,12 +99,24 @@ deriving DecidableEq, Repr
 /-- options.make_namespec -/
 def makeNamespec (g p : String) : String := if g == p then p else g ++ ":" ++ p
 
+/-- where the closure touches its two lists (branch, operation, tests of the enclosing ifs) -- the control flow `walkOne` and
+    `pollOne` below are written after -/
+def expectedPlacement : List (String × String × List String) := [
+  ("walkErr", "results.append", ["+predicate(process)"]),
+  ("walkOk", "callbacks.append((group, process, callback))", ["+predicate(process)", "+isinstance(callback, types.FunctionType)"]),
+  ("walkOk", "results.append", ["+predicate(process)", "-isinstance(callback, types.FunctionType)"]),
+  ("pollErr", "results.append", []),
+  ("pollErr", "callbacks.remove(struct)", []),
+  ("pollOk", "results.append", ["+value is not NOT_DONE_YET"]),
+  ("pollOk", "callbacks.remove(struct)", ["+value is not NOT_DONE_YET"])]
+
 /-- the statement-level facts of the source this model is written against -/
 def structureOk : Bool :=
   pollLoopOverCopy && pollLoopTargetIsStruct && pollRemovesStruct && structPackedAsUnpacked && funcCalledOnlyInWalk
   && walkFuncCalls == ["func(name, **extra_kwargs)"]
   && walkNamespec == ["make_namespec(group.config.name, process.config.name)"]
   && appendSites == ["walkErr", "walkOk", "pollErr", "pollOk"]
+  && listOpPlacement == expectedPlacement
 
 def entryWalkErr (env : Env) (i : Nat) (c : Int) (t : String) : Entry :=
   { name := walkErr_name c t (env.name i) (env.group i), group := walkErr_group c t (env.name i) (env.group i),
